@@ -67,7 +67,9 @@ ASSUMPTIONS = [
     "capsule-capsule profile, which has no actuators): the check's recomputation of C's implicitfast update does not validate on "
     "such models, so the known qDeriv findings could not be confirmed there; actearly together with exactly one of the spring/damper flags disabled; RK4 "
     "together with connect/weld equalities and exactly one of the spring/damper flags disabled - the known differences of these "
-    "combinations could not be neutralised jointly and a difference there could not be confirmed",
+    "combinations could not be neutralised jointly and a difference there could not be confirmed; RK4 with exactly one of the "
+    "spring/damper flags disabled (the compensation that confirms the passive-forces finding is exact for a single forward "
+    "evaluation only)",
     "contact-set equality is judged only for geom pairs whose narrow phase is the same closed-form algorithm in both engines "
     "(calibrated empirically on the unchanged tree: plane-sphere, plane-capsule, plane-ellipsoid, sphere-sphere, "
     "sphere-capsule, capsule-capsule). Pairs involving boxes (doc/mjx.rst: 'BOX is implemented as a mesh': SAT/clipping "
@@ -341,7 +343,7 @@ def _sensor_stage_map(R, m):
     return out
 
 
-def _compare_state(R, m, mx, dcf, dcs, dxf, dxs, x64, P, smap, integ):
+def _compare_state(R, m, mx, dcf, dcs, dxf, dxs, x64, P, smap, integ, clip_acc_cutoff=False):
     """All field comparisons of one state: C forward data `dcf` / stepped `dcs` against MJX `dxf` / `dxs`.
     Returns (problems, info); each problem is (name, detail) and detail["tol"] is the tolerance that raised it."""
     mj = R.mujoco
@@ -386,7 +388,11 @@ def _compare_state(R, m, mx, dcf, dcs, dxf, dxs, x64, P, smap, integ):
         tol_s = max(tol_s, TOL_CONTACT_DOWNSTREAM)
     if contact_dependent_ok and ok_c:
         problems += _compare_efc(R, m, dcf, dxf, max(tol, TOL_CONTACT_GEOM) if nact else tol, tol_s, P, cmatch=_CMATCH["last"])
-    xsens = np.asarray(dxf.sensordata)
+    xsens = np.array(dxf.sensordata)
+    if clip_acc_cutoff:     # counterfactual of the cutoff finding: apply the missing cutoff to MJX's framelinacc / frameangacc
+        for i_, (nm_, stage_, adr_, dim_) in smap.items():
+            if nm_ in ("framelinacc", "frameangacc") and m.sensor_cutoff[i_] > 0:
+                xsens[adr_:adr_ + dim_] = np.clip(xsens[adr_:adr_ + dim_], -m.sensor_cutoff[i_], m.sensor_cutoff[i_])
 
     gross = 0.0
     if not x64 and int(dcf.nefc):
@@ -923,7 +929,8 @@ class _Counterfactuals:
             R.jax.block_until_ready(dxs.qpos)
         else:
             dxf, dxs = self.base[2], self.base[3]
-        probs, _ = _compare_state(R, self.m, mx2, c[0], c[1], dxf, dxs, self.x64, core.Part(), self.smap, self.integ)
+        probs, _ = _compare_state(R, self.m, mx2, c[0], c[1], dxf, dxs, self.x64, core.Part(), self.smap, self.integ,
+                                  clip_acc_cutoff=any(s.get("clip_acc_cutoff") for s in specs))
         return {_pkey(n, d) for n, d in probs}
 
 
@@ -1212,8 +1219,11 @@ def _known_causes(R, m, mx, st, dcf, dcs, dxf, dxs, cf):
             return cut > 0 and bool(np.any(np.abs(x) > cut)) and _relerr(np.clip(x, -cut, cut), c) <= tolof(det)
         out.append({
             "sig": "sensor-cutoff-not-applied-to-framelinacc-frameangacc",
-            "scope": _scope(sensors=[S.mjSENS_FRAMELINACC, S.mjSENS_FRAMEANGACC]),
+            "scope": lambda name, det: name.startswith("sensor_") and int(det.get("stype", -1)) in
+            (int(S.mjSENS_FRAMELINACC), int(S.mjSENS_FRAMEANGACC)) and m.sensor_cutoff[det["sensor"]] > 0,
             "root": cut_root,
+            # together with other known mechanisms: the difference must vanish when the cutoff is applied to MJX's value
+            "spec": {"clip_acc_cutoff": True},
         })
     # 8. elliptic friction rows carry the contact margin in efc_pos / efc_margin -------------------------------------------
     if int(m.opt.cone) == int(mj.mjtCone.mjCONE_ELLIPTIC):
